@@ -26,6 +26,7 @@ import ssl
 
 from mitmproxy.addons.tlsconfig import TlsConfig
 from mitmproxy.addons.upstream_auth import UpstreamAuth
+from mitmproxy import http as mhttp
 from mitmproxy.proxy import layers
 from mitmproxy.proxy import server_hooks
 
@@ -38,7 +39,7 @@ LEVEL = "exploration"
 ENGINE = "sansio"
 BUDGET = {"quick": (350, 18), "thorough": (40000, 220)}
 WORKERS = {"quick": 4, "thorough": 16}
-REQUIRED = ["upstream.closes_after_response", "tunnel.reconnected", "hook.server_disconnected", "option_change.unset_to_set", "option_change.set_to_other", "option_change.set_to_unset", "option_change.applied", "search.conn", "search.tunnel", "search.tls_plain", "cred.in_connect_head", "cred.in_plain_to_proxy", "cred.to_reverse_target", "forwarded.no_cred_expected"]
+REQUIRED = ["connect.answered_by_addon_2xx", "connect.refused_by_addon", "upstream.closes_after_response", "tunnel.reconnected", "hook.server_disconnected", "option_change.unset_to_set", "option_change.set_to_other", "option_change.set_to_unset", "option_change.applied", "search.conn", "search.tunnel", "search.tls_plain", "cred.in_connect_head", "cred.in_plain_to_proxy", "cred.to_reverse_target", "forwarded.no_cred_expected"]
 TECHNIQUE = "runtime monitoring: sans-io conversations with real addons, unique-token search on every wire / tunnel / decrypted stream"
 RULE = (
     "case = (mode, upstream_auth timeline: initially unset or a unique random credential, 0-2 runtime changes between items "
@@ -82,6 +83,26 @@ class TlsStartOnly:
 
     def __init__(self, ta):
         self.tls_start_server = ta.tls_start_server
+
+
+class ConnectAnswerer:
+    """A second (script-like) addon next to UpstreamAuth: answers the client's CONNECT itself in `http_connect`, either with a
+    2xx (the tunnel is still established, e.g. to add a Proxy-Agent header) or with a non-2xx (tunnel refused)."""
+
+    def __init__(self, plan, rng):
+        self.plan = plan
+        self.rng = rng
+        self.answered = []
+
+    def http_connect(self, f):
+        if self.plan == "2xx":
+            status = self.rng.choice([200, 200, 204, 299])
+        elif self.plan == "refuse":
+            status = self.rng.choice([403, 407, 502])
+        else:
+            return
+        f.response = mhttp.Response.make(status, b"", {"Proxy-Agent": "c24-script", "X-Answered-By": "addon"})
+        self.answered.append(status)
 
 
 class LifecycleDriver(sansio.Driver):
@@ -321,6 +342,13 @@ def run_case(ctx, tctx, ua, chain):
         drv.connected(conn)
         return P.TlsServerPeer(p) if addr[1] in TLS_PORTS else p
 
+    # a second addon answers the client's CONNECT itself (2xx: tunnel established anyway / non-2xx: refused), placed
+    # before or after the real UpstreamAuth in the hook chain
+    answer_plan = r.choice(["none", "none", "none", "2xx", "2xx", "refuse"])
+    answerer = ConnectAnswerer(answer_plan, r)
+    chain = list(chain)
+    answerer_first = r.random() < 0.5
+    chain.insert(1 if answerer_first else 2, answerer)
     client = sansio.make_client(mode)
     d = LifecycleDriver(
         top_factory(mode), client=client, options=tctx.options, rng=r, addons=chain, server_factory=server_factory,
@@ -372,7 +400,7 @@ def run_case(ctx, tctx, ua, chain):
     target_addr = (TARGET_HTTPS if "https" in mode else TARGET_HTTP) if fam == "reverse" else None
     seen_where = set()
     reached = 0
-    witness = {"mode": mode, "upstream_auth_timeline": timeline, "option_changes_before_item": changes, "changes_applied": done["n"], "strategy": strategy, "connect_answer": connect_answer,
+    witness = {"mode": mode, "upstream_auth_timeline": timeline, "option_changes_before_item": changes, "changes_applied": done["n"], "strategy": strategy, "connect_answer": connect_answer, "addon_answers_connect": (answer_plan, "before-upstream_auth" if answerer_first else "after-upstream_auth"),
                "items": [(it["kind"], it["raw"][:120]) for it in spec["items"]], "hooks": d.hook_names()}
 
     def hit(data):
@@ -406,6 +434,8 @@ def run_case(ctx, tctx, ua, chain):
                 seen_where.add("tunnel-tls")
                 report("tunnel-tls", conn, plain, item_of(plain))
 
+    for st in answerer.answered:
+        ctx.count("connect.answered_by_addon_2xx" if 200 <= st < 300 else "connect.refused_by_addon")
     ctx.count("hook.server_disconnected", sum(1 for h in d.hooks if h[1] == "server_disconnected"))
     n_tunnels = 0
     for conn in d.servers:
@@ -456,7 +486,7 @@ def run_case(ctx, tctx, ua, chain):
     if fam == "upstream" and n_tunnels >= 2 and any(it["kind"].startswith("inner-http") for it in spec["items"]):
         ctx.count("tunnel.reconnected")  # the client's single tunnel was served by >= 2 upstream CONNECTs
     kinds = tuple(it["kind"] for it in spec["items"])
-    sig = (mode.split("//")[0], tuple("set" if c else "unset" for c in timeline), tuple(j for j, _ in changes), kinds, connect_answer if "connect" in kinds else None, strategy, tuple(sorted(seen_where)))
+    sig = (mode.split("//")[0], tuple("set" if c else "unset" for c in timeline), tuple(j for j, _ in changes), kinds, connect_answer if "connect" in kinds else None, (answer_plan, answerer_first) if "connect" in kinds else None, strategy, tuple(sorted(seen_where)))
     sample = {"mode": mode, "upstream_auth_timeline": timeline, "option_changes_before_item": changes, "items": [it["kind"] for it in spec["items"]], "credential_seen_in": sorted(seen_where), "upstream_conns": [repr(c.address) for c in d.servers]}
     return sig, auth_on and reached > 0, sample
 
